@@ -393,11 +393,14 @@ class ProgProp:
         if not os.path.isfile(path) or os.path.getsize(path) > (40000 if ctx.tier == "quick" else 10 ** 6):
             res.reject = "corpus-file-too-big-for-tier"
             return res
+        rw.EXTRA_ROUTES[0] = "jump" in self.corpus_aspects
         try:
             d = rw.x_dump_file(path=path, want_dis=True, max_code=self.max_code(ctx))
         except Exception as e:
             res.reject = "xdis-cannot-load(C01's subject):%s" % type(e).__name__
             return res
+        finally:
+            rw.EXTRA_ROUTES[0] = False
         vs = ".".join(str(p) for p in d["header"]["version"][:2])
         c = pd.Cmp(vs)
         c.version = vs + ("pypy" if d["header"]["is_pypy"] else "")
@@ -433,7 +436,7 @@ class ProgProp:
             res.reject = "compiler-rejects:" + ref["reject"].split(":")[0]
             return res
         data = rw.unhx(ref["header"]) + rw.unhx(ref["payload"])
-        rw.EXTRA_ROUTES[0] = "argval" in self.aspects
+        rw.EXTRA_ROUTES[0] = "argval" in self.aspects or "jump" in self.aspects
         try:
             x, err = pd.xdis_dump(data, self.max_code(ctx))
         finally:
